@@ -546,21 +546,15 @@ Theorem C09_tensor_train_realised_rank : forall (F : Type) (Op : fops F) (svd : 
 Proof. exact @tensor_train_realised_rank. Qed.
 Print Assumptions C09_tensor_train_realised_rank.
 
-(* REFUTATION: the strict rule of the code (left factor = REQUESTED rank[i]) is not that rank:
-   shape (2,2,7), request (1,3,7,1): code (1,2,6,1), TT-SVD (1,2,4,1) *)
-Theorem C09_validate_tt_rank_strict_refuted :
-  exists shape rank, length rank = length shape + 1 /\ hd 0 rank = 1 /\ last rank 0 = 1 /\
-    validate_tt_rank_strict_code shape rank <> realised_tt_rank shape rank.
-Proof. exact validate_tt_rank_strict_refuted. Qed.
-Print Assumptions C09_validate_tt_rank_strict_refuted.
+(* FULL (code after fix 03a63dd, modelled with its accumulator list): validate_tt_rank(shape, rank,
+   allow_overparametrization=False) is exactly the rank tensor_train realises, for every shape and every request of
+   the right length (the pre-fix rule multiplied the REQUESTED left rank: shape (2,2,7), request (1,3,7,1) gave
+   (1,2,6,1) where TT-SVD reaches (1,2,4,1); regression input in corpus/C09) *)
+Theorem C09_validate_tt_rank_strict_realised : forall shape rank, length rank = length shape + 1 ->
+  validate_tt_rank_strict_code shape rank = realised_tt_rank shape rank.
+Proof. exact validate_tt_rank_strict_realised. Qed.
+Print Assumptions C09_validate_tt_rank_strict_realised.
 
-(* what does hold for the code as it is: a request it returns unchanged is realised exactly *)
-Theorem C09_validate_tt_rank_strict_partial : forall shape rank,
-  length rank = length shape + 1 -> hd 0 rank = 1 -> last rank 0 = 1 -> shape <> [] ->
-  validate_tt_rank_strict_code shape rank = rank -> realised_tt_rank shape rank = rank.
-Proof. exact validate_tt_rank_strict_partial. Qed.
-Print Assumptions C09_validate_tt_rank_strict_partial.
-
-Example C09_nonvacuous_strict_partial :
-  validate_tt_rank_strict_code [2; 3; 4] [1; 2; 4; 1] = [1; 2; 4; 1] /\ realised_tt_rank [2; 3; 4] [1; 2; 4; 1] = [1; 2; 4; 1].
+Example C09_nonvacuous_strict :
+  validate_tt_rank_strict_code [2; 2; 7] [1; 3; 7; 1] = [1; 2; 4; 1] /\ realised_tt_rank [2; 2; 7] [1; 3; 7; 1] = [1; 2; 4; 1].
 Proof. split; reflexivity. Qed.
